@@ -271,12 +271,18 @@ func (this *badgerWAL) CreateSnapshot(idx uint64, confState *raftpb.ConfState, d
 }
 
 func (this *badgerWAL) DeleteGroup() error {
-	if err := this.reset(nil); err != nil {
+	this.cache = new(sync.Map)
+
+	// Entries, hard state and snapshot go in one write: a crash between two
+	// writes would leave the hard state (its commit index) without the entries,
+	// and a group loaded again under the same id - the catalogue log replayed
+	// after the restart - could never be started.
+	batch := this.db.NewWriteBatch()
+	defer batch.Cancel()
+	if err := this.deleteEntriesFromIndex(batch, 0); err != nil {
 		return err
 	}
 	// Hard state and snapshot live under their own keys
-	batch := this.db.NewWriteBatch()
-	defer batch.Cancel()
 	if err := batch.Delete(this.hardStateKey()); err != nil {
 		return err
 	}
